@@ -47,6 +47,7 @@ type gen struct {
 	mono int // remaining blocks of a fixed-sponsor stretch
 	monoIdx int
 	sloppy float64
+	lock   int // scale of DPoS v2 lock times in this run (realisticLock, or a few blocks)
 }
 
 func (g *gen) set(n string, v int64) { g.p.SetKnob(n, v) }
@@ -139,6 +140,18 @@ func (g *gen) config() {
 	g.set("v2DepMinLock", realisticLock)
 	g.set("v2MinLock", realisticLock)
 	g.set("v2MaxLock", maxRealistLock)
+	g.lock = realisticLock
+	if g.prop == "C28" && r.Bool(0.4) {
+		// lock times of a few blocks: producers' stakes and voters' DPoS v2
+		// votes expire (and are renewed at the last moment) inside the run
+		// (never shorter than the 6 blocks a registration stays pending: every
+		// network's minimum lock time is 7200, and a stake that runs out
+		// before the producer was ever activated is not a state they reach)
+		g.lock = r.Range(8, 16)
+		g.set("v2DepMinLock", int64(g.lock))
+		g.set("v2MinLock", int64(g.lock))
+		g.set("v2MaxLock", int64(100*g.lock))
+	}
 	switch r.Intn(5) {
 	case 0, 1:
 		g.set("histCap", int64(r.Range(4, 12)))
@@ -244,6 +257,10 @@ func (g *gen) tx(depositHeavy bool) TxD {
 				add("vote2", 10)
 				add("unstake", 10)
 				add("renew", 3)
+				if g.lock != realisticLock {
+					add("renew", 16)
+					add("upd2", 8) // StakeUntil extended: room for renewals
+				}
 			}
 		}
 	}
@@ -259,16 +276,16 @@ func (g *gen) tx(depositHeavy bool) TxD {
 		d.K = "reg"
 		d.F = 1
 		d.A = g.amountDeposit(true)
-		d.B = int64(realisticLock + 1 + r.Intn(3*realisticLock))
+		d.B = int64(g.lock + 1 + r.Intn(3*g.lock))
 		if r.Bool(0.08) {
-			d.B = int64(r.Intn(realisticLock)) // too short
+			d.B = int64(r.Intn(g.lock)) // too short
 		}
 	case "upd":
 		d.F = r.Intn(4)
 	case "upd2":
 		d.K = "upd"
 		d.F = 4 | r.Intn(4)
-		d.B = int64(realisticLock + 1 + r.Intn(3*realisticLock))
+		d.B = int64(g.lock + 1 + r.Intn(3*g.lock))
 	case "vote":
 		d.A = r.LogUniform(ela, 100000*ela)
 		d.C = g.sels()
@@ -285,7 +302,7 @@ func (g *gen) tx(depositHeavy bool) TxD {
 		d.A = r.LogUniform(ela, 50000*ela)
 	case "vote2":
 		d.A = r.LogUniform(ela, 30000*ela)
-		d.B = int64(realisticLock + r.Intn(2*realisticLock))
+		d.B = int64(g.lock + r.Intn(2*g.lock))
 		d.C = g.sels()
 		if r.Bool(0.25) {
 			d.F |= 1
@@ -297,9 +314,12 @@ func (g *gen) tx(depositHeavy bool) TxD {
 			d.F |= 4
 		}
 	case "renew":
-		d.B = int64(1 + r.Intn(realisticLock))
+		d.B = int64(1 + r.Intn(g.lock))
 		d.A = r.LogUniform(1, 100*ela)
 		d.F = []int{0, 0, 0, 1, 2}[r.Intn(5)]
+		if g.lock != realisticLock && d.F == 0 {
+			d.F = 3 // the vote that expires in this very block, if there is one
+		}
 	case "unstake":
 		d.A = r.LogUniform(10001, 30000*ela)
 		d.F = []int{0, 0, 0, 1}[r.Intn(4)]
